@@ -2231,6 +2231,7 @@ func (m *Msg) WriteTo(writer io.Writer) (int64, error) {
 
 	if m.hasSMIME() {
 		if err := m.signMessage(); err != nil {
+			m.headerCount = 0
 			return 0, err
 		}
 	}
@@ -2269,6 +2270,7 @@ func (m *Msg) WriteToSkipMiddleware(writer io.Writer, middleWareType MiddlewareT
 	m.middlewares = middlewares
 	mw := &msgWriter{writer: writer, charset: m.charset, encoder: m.encoder}
 	mw.writeMsg(m.applyMiddlewares(m))
+	m.headerCount = 0
 	m.middlewares = origMiddlewares
 	return mw.bytesWritten, mw.err
 }
